@@ -1,7 +1,7 @@
 """C09 — invalid calls fail cleanly; valid calls leave no error."""
 import re
 from .. import scripts as S, formats, readcamp as R, handlecheck as HC, abscheck, g711
-from ..core import Violation
+from ..core import Violation, modules_for
 
 NOERR = "No Error."
 
@@ -139,7 +139,7 @@ def run(ctx):
         ctx.violation("error-table", "cannot locate SFE_MAX_ERROR through sf_error_number (table layout changed)", no_input=True)
         raise Violation()
     ctx.set_generated("ErrorTable.lean", lean_error_table(mx, rows, bad))
-    failed = ctx.lean_stage(["SfProps.C09", "SfProps.C09Table"])
+    failed = ctx.lean_stage(modules_for("C09"))
     found = False
     ctx.run_regressions()
     found = bool(ctx.violations)
@@ -212,6 +212,10 @@ def run(ctx):
                     report(f, "successful call leaves an error", "'%s' -> %s" % (tl[j][:60], b[j][:120]), twin, j)
                 k += 1
             j += 1
+    # ---- C: failed opens (vlib/c09open.py): NULL + global error + message, heap balance 0, no descriptor, no temporary file ----
+    from .. import c09open
+    if c09open.run_failed_opens(ctx):
+        found = True
     corr = [x for x in fa if x.kind == "corr"]
     if corr and not found:
         x = corr[0]
@@ -228,4 +232,7 @@ def run(ctx):
     ctx.coverage["rule"] = ("error numbers 0..SFE_MAX_ERROR exhaustively (table extracted by execution, theorem re-checked); A: seeded L1 histories with invalid calls mixed in, "
                             "compared with the Lean handle model; B: for every writable format a valid write/read history is run twice, once with invalid calls of every class "
                             "(wrong mode, misaligned count, negative count, unknown whence, out-of-range seek, mode-qualified whence) inserted: each must return its failure value with "
-                            "a non-zero error and a non-empty message, and every other line, info record and the final file bytes must equal the run without them")
+                            "a non-zero error and a non-empty message, and every other line, info record and the final file bytes must equal the run without them; "
+                            "C: failed opens -- the library's own output of one file per (major, subtype) truncated / with mutated length fields, SD2 with damaged, empty or missing resource forks, "
+                            "unknown formats, bad SF_INFO and bad modes for write, each through sf_open / sf_open_fd (close_desc 1 and 0) / sf_open_virtual: NULL, sf_error (NULL) != 0, non-empty message, "
+                            "handed-over descriptor closed, heap balance 0, no new descriptor, no temporary file (harness `ledger tryopen`; Lean: SfProps/C16 failed_open_leaves_no_handle)")
